@@ -1283,8 +1283,14 @@ func c08OwnNodes(p *chk.Prog, r *chk.Report) {
 				}
 			case *ast.AssignStmt:
 				for i, l := range v.Lhs {
-					if se, isSel := ast.Unparen(l).(*ast.SelectorExpr); isSel && se.Sel.Name == "Nodes" && len(v.Rhs) == len(v.Lhs) {
-						judge(v.Rhs[i], v)
+					if se, isSel := ast.Unparen(l).(*ast.SelectorExpr); isSel && se.Sel.Name == "Nodes" {
+						switch {
+						case len(v.Rhs) == len(v.Lhs):
+							judge(v.Rhs[i], v)
+						case len(v.Rhs) == 1 && i == 0:
+							// `ad.Nodes, err = selectedNodes(..)`: the first result of the call
+							judge(v.Rhs[0], v)
+						}
 					}
 				}
 			}
